@@ -106,6 +106,14 @@ def gen(chk, tier):
                 add(k, "sm4.crypt", h="c2", dec=False, src=blk, inplace=False)
                 add(k, "sm4.crypt", h="c1", dec=False, src=blk, inplace=False)
                 add(k, "sm4.crypt", h="c2", dec=True, src=blk, inplace=False)
+    # slices longer than one block: only the first block is processed, the rest of dst (and of src) is untouched
+    for asm in (True, False):
+        k = scenario("block_long_slices_%s" % ("asm" if asm else "portable"))
+        add(k, "sm4.newcipher", h="c", key=rb(rng, 16), asm=asm)
+        for (sl, dl) in ((17, 16), (32, 32), (48, 17), (16, 64), (33, 40)):
+            for dec in (False, True):
+                add(k, "sm4.crypt", h="c", dec=dec, src=rb(rng, sl), inplace=False, dstlen=dl)
+                add(k, "sm4.crypt", h="c", dec=dec, src=rb(rng, sl), inplace=True)
     # the caller's key BUFFER reused: NewCipher(buf) with k1, then buf is overwritten with k2 (or wiped) and
     # handed to NewCipher again - the second cipher is k2's and the first stays k1's (nothing may remember
     # the slice instead of its contents), for 1..3 reuses and both paths
